@@ -8,7 +8,7 @@
    iter_index t it = number of items before position it (= distance from begin).
    All statements hold for every 1 <= maxCapacity <= 255, every capacityStep, blockCount, search strategy. *)
 From Coq Require Import ZArith List.
-From C02 Require Import BTreeModel BTreeParams BTreeBase SplitSeg BTreeSearch BTreeIter BTreeAdd BTreeRemove BTreeCtx BTreeRemove2 BTreeTrack BTreeRemove3 BTreeTop BTreeHist BTreeRemoveTop BTreeHist2 BTreeMerge BTreeFast BTreeFast2.
+From C02 Require Import BTreeModel BTreeParams BTreeBase SplitSeg BTreeSearch BTreeIter BTreeAdd BTreeRemove BTreeCtx BTreeRemove2 BTreeTrack BTreeRemove3 BTreeRange BTreeTop BTreeHist BTreeRemoveTop BTreeRangeTop BTreeHist2 BTreeMerge BTreeFast BTreeFast2.
 Import ListNotations.
 Local Open Scope Z_scope.
 
@@ -210,6 +210,22 @@ Theorem C02_remove_refines :
 Proof. exact remove_refines. Qed.
 Print Assumptions C02_remove_refines.
 
+(* remove_range_refines: Remove(begin, end) with begin at index h1 and end at index h2 -- nothing to remove, everything
+   (Clear), both ends in one leaf (in-leaf removal + pvRebalance(fast)), or pvRemoveRange through the common parent:
+   the predecessor of begin is found by descending/climbing (while itemIndex1 == 0), moved up to replace the common
+   parent's separator, the left border is truncated to the right of the path and the right border to the left of it
+   (pvDestroyInternal), the separators and subtrees in between are dropped, then two pvRebalance(.., false) and
+   pvMakeIterator(resNode, 0, true).  WF and mCount are kept, the sequence is the one with [h1, h2) removed, and the
+   returned iterator is normalised and denotes index h1. *)
+Theorem C02_remove_range_refines :
+  forall maxCap : nat, (1 <= maxCap <= 255)%nat -> forall (t : tree) (h1 h2 : nat),
+    twf maxCap t -> (h1 <= h2)%nat -> (h2 <= length (contents t))%nat ->
+    let '(t', it') := remove_range t h1 h2 in
+    twf maxCap t' /\ contents t' = firstn h1 (contents t) ++ skipn h2 (contents t) /\
+    norm t' it' /\ iter_index t' it' = h1.
+Proof. exact remove_range_refines. Qed.
+Print Assumptions C02_remove_range_refines.
+
 (* ResetKey(iter, key): the item at the iterator's index is overwritten in place, everything else untouched. *)
 Theorem C02_reset_key_refines :
   forall maxCap : nat, (1 <= maxCap <= 255)%nat -> forall (t : tree) (it : iter) (k : Z),
@@ -229,6 +245,20 @@ Theorem C02_remove_key_refines :
     snd (remove_key linear t k) = (if contains linear t k then 1 else 0)%nat.
 Proof. exact remove_key_spec. Qed.
 Print Assumptions C02_remove_key_refines.
+
+(* Remove(key) for multi keys: counts the equal range from the lower bound and removes it through Remove(iter, iter2):
+   everything in [lower bound, upper bound) goes, the count is returned. *)
+Theorem C02_remove_key_multi_refines :
+  forall (maxCap : nat) (linear multi : bool), (1 <= maxCap <= 255)%nat ->
+  forall (t : tree) (k : Z), twf maxCap t -> sorted multi (contents t) ->
+    let res := remove_key_multi linear t k in
+    twf maxCap (fst res) /\
+    contents (fst res) = (if contains linear t k
+                          then firstn (lb_index (contents t) k) (contents t) ++ skipn (ub_index (contents t) k) (contents t)
+                          else contents t) /\
+    snd res = (if contains linear t k then ub_index (contents t) k - lb_index (contents t) k else 0)%nat.
+Proof. exact remove_key_multi_spec. Qed.
+Print Assumptions C02_remove_key_multi_refines.
 
 (* Remove(predicate): the begin..end loop of Remove(iter) / ++ leaves exactly the items that do not satisfy it. *)
 Theorem C02_remove_if_refines :
@@ -346,7 +376,7 @@ Proof. exact history3_refines. Qed.
 Print Assumptions C02_history_two_containers_refines.
 
 (* lifted over ALL finite histories over the alphabet Insert / hinted Add (right hint: Add at that position, wrong
-   hint: Insert) / Remove(iterator at index h) / Remove(key) / ResetKey (when it keeps the order) / Clear, from the
+   hint: Insert) / Remove(iterator at index h) / Remove(begin,end) / Remove(key) / ResetKey (when it keeps the order) / Clear, from the
    empty container (Extract+Insert is the two-op sequence Remove(iterator); Insert): the state is WF, sorted
    (non-decreasing / strictly increasing), mCount is exact, and the sequence equals the list-level reference. *)
 Theorem C02_history_refines :
